@@ -29,6 +29,14 @@ func scaleCases(tier string) []scalekit.Case {
 	for _, n := range scale.Sizes(24, 65) {
 		out = append(out, scalekit.Case{Shape: "equal-names", N: n})
 	}
+	// a long list crossed with a revision arrangement: two (three) loaded revisions of one module each
+	// derive n identities of the same names from the root of another module
+	for _, n := range scale.Sizes(80, 257) {
+		out = append(out, scalekit.Case{Shape: "revisions-with-equal-names", N: n, V: 2})
+		if n%8 == 1 {
+			out = append(out, scalekit.Case{Shape: "revisions-with-equal-names", N: n, V: 3})
+		}
+	}
 	maxK := 7
 	if tier == "thorough" {
 		maxK = 8
@@ -123,9 +131,75 @@ func checkEqualNames(cs scalekit.Case) scalekit.Verdict {
 	return scalekit.OK()
 }
 
+// revisions-with-equal-names: every revision's identities are identities of their own; the root
+// lists all of them, each once, and each d(i) of each revision lists its own e(i).
+func checkRevisions(cs scalekit.Case) scalekit.Verdict {
+	files := []dump.File{{Name: "base.yang", Text: `module base { namespace "urn:base"; prefix base; identity root; leaf r { type identityref { base root; } } }`}}
+	for r := 0; r < cs.V; r++ {
+		var sb strings.Builder
+		fmt.Fprintf(&sb, `module d { namespace "urn:d"; prefix d; import base { prefix b; } revision 202%d-01-01;`, r)
+		for i := 0; i < cs.N; i++ {
+			fmt.Fprintf(&sb, " identity d%d { base b:root; }", i)
+			if i%16 == 0 {
+				fmt.Fprintf(&sb, " identity e%d { base d%d; }", i, i)
+			}
+		}
+		sb.WriteString(" }")
+		files = append(files, dump.File{Name: fmt.Sprintf("d-202%d.yang", r), Text: sb.String()})
+	}
+	for _, rev := range []bool{false, true} {
+		ms, errs, lerr := scalekit.Load(files, rev)
+		if lerr != nil || len(errs) > 0 {
+			return scalekit.Bad("spurious-errors", "loads and processes", fmt.Sprint(lerr, dump.Errors(errs)))
+		}
+		for twice := 0; twice < 2; twice++ {
+			root := ms.Modules["base"].Identity[0]
+			perFile := map[string]int{}
+			seen := map[*yang.Identity]bool{}
+			for _, v := range root.Values {
+				if seen[v] {
+					return scalekit.Bad("identity-listed-twice", "each once", v.Name+" of "+yang.Source(v))
+				}
+				seen[v] = true
+				perFile[strings.SplitN(yang.Source(v), ":", 2)[0]]++
+			}
+			wantPer := cs.N + (cs.N+15)/16
+			for r := 0; r < cs.V; r++ {
+				if got := perFile[fmt.Sprintf("d-202%d.yang", r)]; got != wantPer {
+					return scalekit.Bad("derived-identities-of-a-revision-missing", fmt.Sprintf("%d identities of revision 202%d-01-01 below root", wantPer, r), fmt.Sprintf("%d (list of %d in all, per file %v)", got, len(root.Values), perFile))
+				}
+			}
+			if e := yang.ToEntry(ms.Modules["base"]).Dir["r"]; e == nil || e.Type == nil || e.Type.IdentityBase != root {
+				return scalekit.Bad("identityref-base-is-another-object", "the identity root", "another")
+			}
+			for _, m := range ms.Modules {
+				if m.Name != "d" {
+					continue
+				}
+				for _, id := range m.Identity {
+					if strings.HasPrefix(id.Name, "d") && (id.Name[1:] == "0" || len(id.Values) > 0) {
+						var n int
+						fmt.Sscanf(id.Name, "d%d", &n)
+						if n%16 == 0 && (len(id.Values) != 1 || id.Values[0].Name != fmt.Sprintf("e%d", n) || yang.RootNode(id.Values[0]) != yang.RootNode(id)) {
+							return scalekit.Bad("derived-identity-of-another-revision", fmt.Sprintf("%s of %s lists its own e%d", id.Name, yang.Source(id), n), fmt.Sprint(len(id.Values)))
+						}
+					}
+				}
+			}
+			if errs := ms.Process(); len(errs) > 0 {
+				return scalekit.Bad("spurious-errors@second-process", "no errors", dump.Errors(errs))
+			}
+		}
+	}
+	return scalekit.OK()
+}
+
 func checkScale(cs scalekit.Case) scalekit.Verdict {
 	if cs.Shape == "equal-names" {
 		return checkEqualNames(cs)
+	}
+	if cs.Shape == "revisions-with-equal-names" {
+		return checkRevisions(cs)
 	}
 	var files []dump.File
 	want := map[string]string{} // identity -> sorted names of everything derived from it
